@@ -176,6 +176,88 @@ theorem beginHandshake_mono (n : Node) (via : UNode) (pkt : Handle) (res : Optio
       · exact ⟨m, rfl⟩
       · exact ⟨⟨m.v, m.w, m.n⟩, rfl⟩
 
+theorem getOrHandshake_keep (n : Node) (a : Addr) (cb : Pending → Pending) (g : GoodCb cb) (h : PInv n.p) :
+    (n.getOrHandshake a cb).1.cfg = n.cfg ∧ PInv (n.getOrHandshake a cb).1.p ∧ Grow n.p (n.getOrHandshake a cb).1.p := by
+  unfold Node.getOrHandshake
+  split
+  · exact ⟨rfl, h, Grow.refl _⟩
+  · have := startHandshake_inv n.cfg n.p a cb g h
+    exact ⟨rfl, this.1, this.2⟩
+
+theorem firstReady_keep (gs : List Addr) (n : Node) (h : PInv n.p) :
+    (n.firstReady gs).1.cfg = n.cfg ∧ PInv (n.firstReady gs).1.p ∧ Grow n.p (n.firstReady gs).1.p := by
+  induction gs generalizing n with
+  | nil => exact ⟨rfl, h, Grow.refl _⟩
+  | cons g gs ih =>
+    simp only [Node.firstReady]
+    have h1 := getOrHandshake_keep n g id goodCb_id h
+    generalize n.getOrHandshake g id = r at h1 ⊢
+    obtain ⟨n', o⟩ := r
+    cases o with
+    | some hi => exact h1
+    | none =>
+      have := ih n' h1.2.1
+      exact ⟨this.1.trans h1.1, this.2.1, h1.2.2.trans this.2.2⟩
+
+theorem sendVia_flushed (c : Cfg) (hi : HostInfo) (q : Cached) : (c.sendVia hi q).flushed = [] := by
+  unfold Cfg.sendVia
+  split
+  · split <;> rfl
+  · rfl
+
+theorem sendRouted_keep (n : Node) (q : Cached) (h : PInv n.p) :
+    PInv (n.sendRouted q).1.p ∧ Grow n.p (n.sendRouted q).1.p ∧ (n.sendRouted q).2.flushed = [] := by
+  unfold Node.sendRouted
+  split
+  next => exact ⟨h, Grow.refl _, rfl⟩
+  next g _ =>
+    have h1 := getOrHandshake_keep n g.1 (fun hh => hh.cache q) (goodCb_cache q) h
+    generalize n.getOrHandshake g.1 (fun hh => hh.cache q) = r at h1 ⊢
+    obtain ⟨n', o⟩ := r
+    cases o with
+    | some hi => exact ⟨h1.2.1, h1.2.2, sendVia_flushed ..⟩
+    | none => exact ⟨h1.2.1, h1.2.2, rfl⟩
+  next =>
+    split
+    next => exact ⟨h, Grow.refl _, rfl⟩
+    next chosen _ =>
+      have h1 := getOrHandshake_keep n chosen id goodCb_id h
+      generalize n.getOrHandshake chosen id = r at h1 ⊢
+      obtain ⟨n1, o⟩ := r
+      cases o with
+      | some hi => exact ⟨h1.2.1, h1.2.2, sendVia_flushed ..⟩
+      | none =>
+        dsimp only
+        have h2 := firstReady_keep ((n.cfg.routes.map (·.1)).filter (· != chosen)) n1 h1.2.1
+        generalize n1.firstReady ((n.cfg.routes.map (·.1)).filter (· != chosen)) = r2 at h2 ⊢
+        obtain ⟨n2, o2⟩ := r2
+        cases o2 with
+        | some hi => exact ⟨h2.2.1, h1.2.2.trans h2.2.2, sendVia_flushed ..⟩
+        | none =>
+          dsimp only
+          split
+          · rename_i hh hl
+            have hm := mem_of_alookup hl
+            refine ⟨h2.2.1.setPending hm (cache_id hh q).1 (cache_id hh q).2 (cache_fifo hh q (h2.2.1.fifo _ _ hm)), ?_, rfl⟩
+            exact (h1.2.2.trans h2.2.2).trans (Grow.setPending _ _)
+          · exact ⟨h2.2.1, h1.2.2.trans h2.2.2, rfl⟩
+
+theorem sendInside_keep (n : Node) (a : Addr) (q : Cached) (h : PInv n.p) :
+    PInv (n.sendInside a q).1.p ∧ Grow n.p (n.sendInside a q).1.p ∧ (n.sendInside a q).2.flushed = [] := by
+  unfold Node.sendInside
+  split
+  · exact ⟨h, Grow.refl _, rfl⟩
+  · split
+    · exact sendRouted_keep n q h
+    · split
+      · exact ⟨h, Grow.refl _, rfl⟩
+      · have h1 := getOrHandshake_keep n a (fun hh => hh.cache q) (goodCb_cache q) h
+        generalize n.getOrHandshake a (fun hh => hh.cache q) = r at h1 ⊢
+        obtain ⟨n', o⟩ := r
+        cases o with
+        | some hi => exact ⟨h1.2.1, h1.2.2, sendVia_flushed ..⟩
+        | none => exact ⟨h1.2.1, h1.2.2, rfl⟩
+
 theorem step_pinv (n : Node) (e : Ev) (h : PInv n.p) :
     PInv (n.step e).1.p ∧ Grow n.p (n.step e).1.p ∧ FlushOk n (n.step e) := by
   have mono : ∀ {p' : PSide} {r : Node × Out}, Mono n.p p' → r.1.p = p' → r.2.flushed = [] →
@@ -205,26 +287,8 @@ theorem step_pinv (n : Node) (e : Ev) (h : PInv n.p) :
     exact mono this.1 rfl this.2
   | stage2 via idx res => exact continueHandshake_pinv n via idx res h
   | send a q =>
-    simp only [Node.step, Node.sendInside, Node.getOrHandshake]
-    split
-    · exact ⟨h, Grow.refl _, Or.inl rfl⟩
-    · split
-      · exact ⟨h, Grow.refl _, Or.inl rfl⟩
-      · have sh := startHandshake_inv n.cfg n.p a _ (goodCb_cache q) h
-        split
-        · rename_i n' hh heq
-          have : n' = n := by
-            split at heq
-            · simp at heq; exact heq.1.symm
-            · simp at heq
-          subst this
-          split
-          · split <;> exact ⟨h, Grow.refl _, Or.inl rfl⟩
-          · exact ⟨h, Grow.refl _, Or.inl rfl⟩
-        · rename_i n' heq
-          split at heq
-          · simp at heq
-          · simp at heq; subst heq; exact ⟨sh.1, sh.2, Or.inl rfl⟩
+    have := sendInside_keep n a q h
+    exact ⟨this.1, this.2.1, Or.inl this.2.2⟩
   | idx v =>
     exact mono (p' := (n.step (.idx v)).1.p) (r := n.step (.idx v)) ⟨rfl, rfl, Nat.le_refl _⟩ rfl rfl
   | del li =>
